@@ -356,7 +356,7 @@ func altAdmits(a AltAST, c Triple3) bool {
 
 var specC06Select = Register(&Spec[SelectCase]{
 	Prop: "C06", Name: "select",
-	Rule: "random dependency ASTs (C04 generator, canonical spacing) parsed and queried for one of 13 concrete architectures (one-part, three-part and two-part OS-CPU names such as hurd-i386). Oracle on the AST: GetPossibilities returns, per relation and in order, the first non-substvar alternative whose architecture list admits the architecture (nothing for a relation with none); GetAllPossibilities returns every non-substvar alternative in order; GetSubstvars the substvars in order; the same relations built as struct literals (no architecture list = nil) select the same alternatives; the first results, kept while all the other queries (four more architectures among them) are made, still say the same afterwards. Non-trivial: some relation selects a later alternative or selects nothing although it has package alternatives; distinct by (text, arch).",
+	Rule: "random dependency ASTs (C04 generator, canonical spacing) parsed and queried for one of 13 concrete architectures (one-part, three-part and two-part OS-CPU names such as hurd-i386). Oracle on the AST: GetPossibilities returns, per relation and in order, the first non-substvar alternative whose architecture list admits the architecture (nothing for a relation with none); GetAllPossibilities returns every non-substvar alternative in order; GetSubstvars the substvars in order; the same relations built as struct literals (no architecture list = nil) select the same alternatives; the same Dependency queried for four more architectures and the first one again answers each according to the field as written, and the first results, kept meanwhile, still say the same afterwards. Non-trivial: some relation selects a later alternative or selects nothing although it has package alternatives; distinct by (text, arch).",
 	Check: func(c SelectCase, r *Recorder) error {
 		cm, _ := archModel(c.Arch)
 		for _, rel := range c.AST.Rels {
@@ -429,9 +429,36 @@ var specC06Select = Register(&Spec[SelectCase]{
 		if err := cmp("GetPossibilities", held, want); err != nil {
 			return err
 		}
-		for _, other := range []string{"amd64", "hurd-i386", "armhf", "all"} {
-			if oa, oerr := dependency.ParseArch(other); oerr == nil {
-				_ = dep.GetPossibilities(*oa)
+		// the same Dependency asked for other architectures, and then for the first one again: every
+		// answer is about the field as written (a query must not wear the Dependency down)
+		for _, other := range []string{"amd64", "hurd-i386", "armhf", "sparc", c.Arch} {
+			oa, oerr := dependency.ParseArch(other)
+			if oerr != nil {
+				continue
+			}
+			om, _ := archModel(other)
+			var owant []AltAST
+			undecided := false
+			for _, rel := range c.AST.Rels {
+				for _, a := range rel.Alts {
+					if a.Substvar {
+						continue
+					}
+					if altUndecided(a, om) {
+						undecided = true
+					}
+					if altAdmits(a, om) {
+						owant = append(owant, a)
+						break
+					}
+				}
+			}
+			got := dep.GetPossibilities(*oa)
+			if undecided {
+				continue
+			}
+			if err := cmp("GetPossibilities (asked for "+other+" after "+c.Arch+")", got, owant); err != nil {
+				return err
 			}
 		}
 		if err := cmp("GetAllPossibilities", dep.GetAllPossibilities(), all); err != nil {
